@@ -652,9 +652,12 @@ def run_c15(ctx: Ctx):
                                   {"class": cname, "object": ro, "san": san, "impl": real})
                             return
                         model = ctx.driver.ask1(f"gen ser {cname} {int(san)} {ro}")
-                        if model.split()[-1] != real.split()[-1] or classify(model) != classify(real):
+                        # the mode after the call, and - the "consequently" clause: what is sanitised is exactly what lies in a
+                        # chunked section - the bytes written under the modes in force during the call
+                        if model.split()[-1] != real.split()[-1] or classify(model) != classify(real) or \
+                                (valid and real.startswith("ok") and model.startswith("ok") and len(real) < 6000 and model != real):
                             if disagree(ctx, case, f"{cname}.serialize (entry mode {san}): impl `{real[:100]}`, model `{model[:100]}`",
-                                     {"class": cname, "object": ro, "san": san}, "mode after execSer vs generated serialize", "C15"):
+                                     {"class": cname, "object": ro, "san": san}, "mode after execSer / bytes under the modes in force vs generated serialize", "C15"):
                                 return
                         # failing writer: raise at the k-th write call
                         for k in (1, 2, 4, 7):
@@ -1132,6 +1135,14 @@ def run_c18(ctx: Ctx):
         if not (ctx.tier == "thorough") and case.flags.get("catalogue") and idx % 3 != 0 and idx > 1:
             continue
         case.files = complete_tree(case.files)
+        if idx % 3 == 1:
+            # a tree with gaps: a directory that only exists to hold sub-directories (root, pub) has no protocol.xml of its own when
+            # the specification declares nothing there - its sub-directories must still be found, generated and importable
+            gap = [(d, r) for d, r in case.files if not (d in ("", "pub") and not r.children)]
+            if len(gap) != len(case.files):
+                case.files = gap
+                case.tag += "+gaps"
+                ctx.count("tree.with_gaps")
         try:
             st = open_case(ctx, case, "C18", load=False)
             if st is False:
